@@ -33,7 +33,7 @@ theorem lctor_linv (k : Int) (st sp : Option L) (n : Int) (f : Bool) : LInv st s
   ⟨rfl, fun _ => rfl, rfl, fun _ => rfl⟩
 
 /-- `fit` changes nothing but `start/stop`, and those only where the user fixed nothing -/
-theorem lfit_fields {s s' : LState L} {X : List (Dgm L)} (h : lfit s X = .ok s') :
+theorem lfit_fields {fin : L → Bool} {s s' : LState L} {X : List (Dgm L)} (h : lfit fin s X = .ok s') :
     s'.startFixed = s.startFixed ∧ s'.stopFixed = s.stopFixed ∧ s'.numSteps = s.numSteps ∧
     s'.flatten = s.flatten ∧ s'.homDeg = s.homDeg ∧
     (s.startFixed = true → s'.start = s.start) ∧ (s.stopFixed = true → s'.stop = s.stop) := by
@@ -52,17 +52,43 @@ theorem lfit_fields {s s' : LState L} {X : List (Dgm L)} (h : lfit s X = .ok s')
         · intro hf; simp only [learn, hf, if_true] at hst; cases hst; rfl
         · intro hf; simp only [learn, hf, if_true] at hsp; cases hsp; rfl
 
-theorem lfit_linv {us ut : Option L} {s s' : LState L} {X : List (Dgm L)} (hs : LInv us ut s)
-    (h : lfit s X = .ok s') : LInv us ut s' := by
+theorem lfit_linv {fin : L → Bool} {us ut : Option L} {s s' : LState L} {X : List (Dgm L)} (hs : LInv us ut s)
+    (h : lfit fin s X = .ok s') : LInv us ut s' := by
   obtain ⟨a, b, _, _, _, c, d⟩ := lfit_fields h
   refine ⟨a.trans hs.sf, fun hu => ?_, b.trans hs.tf, fun hu => ?_⟩
   · rw [c (by rw [hs.sf]; exact hu)]; exact hs.sv hu
   · rw [d (by rw [hs.tf]; exact hu)]; exact hs.tv hu
 
+/-- what `get_params` reports is what the user fixed -/
+theorem getStart_eq {us ut : Option L} {s : LState L} (hs : LInv us ut s) : getStart s = us := by
+  unfold getStart
+  cases us with
+  | none => have := hs.sf; simp_all
+  | some v => have h1 := hs.sf; have h2 := hs.sv rfl; simp_all
+
+theorem getStop_eq {us ut : Option L} {s : LState L} (hs : LInv us ut s) : getStop s = ut := by
+  unfold getStop
+  cases ut with
+  | none => have := hs.tf; simp_all
+  | some v => have h1 := hs.tf; have h2 := hs.tv rfl; simp_all
+
+/-- **a clone is the unfitted object with the user's parameters** -/
+theorem lclone_eq {us ut : Option L} {s : LState L} (hs : LInv us ut s) :
+    lclone s = lctor s.homDeg us ut s.numSteps s.flatten := by
+  unfold lclone; rw [getStart_eq hs, getStop_eq hs]
+
+theorem lclone_linv {us ut : Option L} {s : LState L} (hs : LInv us ut s) : LInv us ut (lclone s) := by
+  rw [lclone_eq hs]; exact lctor_linv _ _ _ _ _
+
+theorem lsetParamsFromGet_linv {us ut : Option L} {s : LState L} (hs : LInv us ut s) :
+    LInv us ut (lsetParamsFromGet s) := by
+  unfold lsetParamsFromGet; rw [getStart_eq hs, getStop_eq hs]
+  exact ⟨rfl, fun _ => rfl, rfl, fun _ => rfl⟩
+
 /-- the invariant along a whole history (calls that raise leave the object unchanged) -/
-theorem lrun_linv (approx : List (Dgm L) → Option L → Option L → Int → Int → β) (flat : β → β)
+theorem lrun_linv (fin : L → Bool) (approx : List (Dgm L) → Option L → Option L → Int → Int → β) (flat : β → β)
     (cs : List (LCall L)) (us ut : Option L) (s : LState L) (hs : LInv us ut s) :
-    LInv (userStart us cs) (userStop ut cs) (lrun approx flat s cs) := by
+    LInv (userStart us cs) (userStop ut cs) (lrun fin approx flat s cs) := by
   induction cs generalizing us ut s with
   | nil => exact hs
   | cons c cs ih =>
@@ -84,7 +110,7 @@ theorem lrun_linv (approx : List (Dgm L) → Option L → Option L → Int → I
       exact ih _ _ _ ⟨hs.sf, hs.sv, hs.tf, hs.tv⟩
     | fit X =>
       simp only [lrun, lcall, userStart, userStop]
-      cases hf : lfit s X with
+      cases hf : lfit fin s X with
       | error e => exact ih _ _ _ hs
       | ok s' => exact ih _ _ _ (lfit_linv hs hf)
     | transform X =>
@@ -92,9 +118,15 @@ theorem lrun_linv (approx : List (Dgm L) → Option L → Option L → Int → I
       exact ih _ _ _ hs
     | fitTransform X =>
       simp only [lrun, lcall, lfitTransform, userStart, userStop]
-      cases hf : lfit s X with
+      cases hf : lfit fin s X with
       | error e => exact ih _ _ _ hs
       | ok s' => exact ih _ _ _ (lfit_linv hs hf)
+    | clone =>
+      simp only [lrun, lcall, userStart, userStop]
+      exact ih _ _ _ (lclone_linv hs)
+    | setParamsFromGet =>
+      simp only [lrun, lcall, userStart, userStop]
+      exact ih _ _ _ (lsetParamsFromGet_linv hs)
 
 /-! ### `min(..., key=itemgetter(0))[0]` is the minimum birth, `max(..., key=itemgetter(1))[1]` the maximum death -/
 
